@@ -8,6 +8,9 @@ import MidnightZK.Proofs.C01.IdentityOrder
 import MidnightZK.Proofs.C01.PermComplete
 import MidnightZK.Proofs.C01.Toy
 import MidnightZK.Proofs.C01.Bridge
+import MidnightZK.Model.C01.GraphDump
+import MidnightZK.Proofs.C02.Degree
+import MidnightZK.Proofs.C02.Domain
 /-!
 # C01 — honest proofs verify for every circuit shape and proving configuration
 
@@ -789,6 +792,26 @@ theorem unselected_gate_not_divisible (hω : IsPrimitiveRoot ω n) (a : List F) 
     (hi : i < n) (hb : a.getD i 0 ≠ 0) : ¬ (X ^ n - 1 : F[X]) ∣ Asm.colPoly ω n a := fun h =>
   Asm.unselected_gate_fails hω a i hi hb (Dom.vanish_of_dvd hω _ h i)
 
+/-- **Row-level completeness lifts to polynomials (permutation).** Under the hypotheses of
+`perm_product_complete` — every layout, `chunk_len ≥ 1`, the (value, σ-label) pairs a permutation of
+the (value, identity-label) pairs, no vanishing denominator — the permutation identity POLYNOMIALS
+(`C02.Dom.permIdPolys`: `permutation.rs: expressions` over the column polynomials of degree `< n` of
+the values, the σ labels and the running products the honest prover commits to, their rotations
+`z(ωX)`, `z(ω^{−(bf+1)}X)`, the label polynomial `δ^c·X`, and `l_0` / `l_last` / `l_blind` as
+Lagrange-basis polynomials) vanish on the WHOLE domain: the hypothesis `hvanish` of
+`honest_verifies_algebraic` for the permutation class is now a theorem (the lift itself is
+`C02.perm_identity_vanishes_on_domain_iff_rows`). -/
+theorem perm_identities_vanish_on_domain (hω : IsPrimitiveRoot ω n) (chunkLen bf : ℕ) (β γ δ : F)
+    (rnd : ℕ → ℕ → F) (cols : List (List F × List F)) (hchunk : 1 ≤ chunkLen) (hn : bf + 1 ≤ n)
+    (hlen : ∀ c ∈ cols, c.1.length = n ∧ c.2.length = n)
+    (hden : ∀ c ∈ cols, ∀ i, i < n - (bf + 1) → β * c.2.getD i 0 + γ + c.1.getD i 0 ≠ 0)
+    (hperm : (sigmaPairs (n - (bf + 1)) cols).Perm (idPairs δ ω (n - (bf + 1)) cols)) :
+    ∀ p ∈ C02.Dom.permIdPolys ω chunkLen n bf β γ δ cols
+        (Args.permProducts (fun x => x⁻¹) chunkLen n bf β γ δ ω rnd cols),
+      ∀ i, i < n → p.eval (ω ^ i) = 0 :=
+  (C02.Dom.perm_vanishes_iff_rows hω chunkLen bf hn β γ δ cols _).mpr fun i hi =>
+    perm_product_complete chunkLen n bf β γ δ ω rnd cols hchunk hn hlen hden hperm i hi
+
 /-- **Honest proofs pass the verifier's algebraic check** (`verify_algebraic_constraints`, with the
 commitments read as the polynomials they commit to; KZG opening completeness is C14). For every
 field with a primitive `n`-th root of unity (`n = 2^k ≥ 2`), every number `q ≥ 1` of quotient
@@ -887,5 +910,95 @@ example : ∀ i, i < 2 → (Asm.trashIdPoly (-1 : ℚ) 2 5 [1, 0] [[0, 3]] (Args
       simp only [List.mem_singleton] at he
       subst he
       interval_cases i <;> simp)
+
+/-! ### the constant shortcuts of `add_expression` on both operand positions (concrete readings) -/
+
+section Shortcuts
+open Graph
+
+/-- **`e * Constant(2)` and `Constant(2) * e` both compile to `Double(e)`** (`evaluation.rs:
+add_expression`, arm `Product`): the doubled source is the OTHER operand, never the constant
+(seeded change C01-3 doubled the constant when it was the right factor). Concrete readings of the
+mirror `addExpr` over `Fin 13` with the operand order of the Rust code (`vsLe`), on the fresh graph
+`GraphEvaluator::default()`; the same shapes are members of the family's `GateKind::Shapes` table
+and are compared with the real compiled graph on every run (`graph` lines). -/
+theorem times_two_compiles_to_double_of_other_operand :
+    (addExpr (F := Fin 13) vsLe (.prod (.advice 0 0) (.const 2)) G.init).1.calcs
+      = [.store (.advice 0 0), .double (.inter 0)] ∧
+    (addExpr (F := Fin 13) vsLe (.prod (.const 2) (.advice 0 0)) G.init).1.calcs
+      = [.store (.advice 0 0), .double (.inter 0)] ∧
+    (addExpr (F := Fin 13) vsLe (.prod (.advice 0 0) (.const 2)) G.init).2 = .inter 1 ∧
+    (addExpr (F := Fin 13) vsLe (.prod (.const 2) (.advice 0 0)) G.init).2 = .inter 1 := by
+  decide
+
+/-- The other constant shortcuts on both operand positions: `0·e = e·0 = Constant(0)` without any
+calculation of the product, `1·e = e·1 = e`, `3·e` / `e·3` one `Mul` with the constant first
+(`Constant(_) ≤ Intermediate(_)`), `e·e` a `Square`, `e·f` and `f·e` the SAME `Mul` (reused),
+`e + (−f)` a `Sub`, `0 + (−f)` a `Negate`. -/
+theorem constant_shortcuts_both_sides :
+    let a : Expr (Fin 13) := .advice 0 0
+    let b : Expr (Fin 13) := .advice 1 0
+    let zero : Expr (Fin 13) := .scaled a 0
+    let one : Expr (Fin 13) := .neg (.const 12)
+    (addExpr vsLe (.prod zero a) G.init).2 = .const 0 ∧ (addExpr vsLe (.prod a zero) G.init).2 = .const 0 ∧
+    (addExpr vsLe (.prod one a) G.init).2 = .inter 0 ∧ (addExpr vsLe (.prod a one) G.init).2 = .inter 0 ∧
+    (addExpr vsLe (.prod (.const 3) a) G.init).1.calcs = [.store (.advice 0 0), .mul (.const 3) (.inter 0)] ∧
+    (addExpr vsLe (.prod a (.const 3)) G.init).1.calcs = [.store (.advice 0 0), .mul (.const 3) (.inter 0)] ∧
+    (addExpr vsLe (.prod a a) G.init).1.calcs = [.store (.advice 0 0), .square (.inter 0)] ∧
+    (addExpr vsLe (.sum (.prod a b) (.prod b a)) G.init).1.calcs
+      = [.store (.advice 0 0), .store (.advice 1 0), .mul (.inter 0) (.inter 1), .add (.inter 2) (.inter 2)] ∧
+    (addExpr vsLe (.sum a (.neg b)) G.init).1.calcs = [.store (.advice 0 0), .store (.advice 1 0), .sub (.inter 0) (.inter 1)] ∧
+    (addExpr vsLe (.sum zero (.neg b)) G.init).1.calcs = [.store (.advice 1 0), .negate (.inter 0)] := by
+  decide
+
+end Shortcuts
+
+/-! ### the degree bookkeeping: every identity fits the quotient pieces -/
+
+/-- **Every identity of the numerator fits the quotient the prover commits to.** For every
+constraint system (gates, lookups of any arity and any input / table degrees, trash arguments with a
+column selector, permutation columns) and every domain size `n ≥ 1`: an identity of the numerator has
+degree `d ≤ degree()` in units of column polynomials (`C02.Ids.identityDegrees`, class by class; the
+lookup product rule multiplies the θ-compressed input by the θ-compressed table: `max_i deg input_i +
+max_i deg table_i`), so after division by `X^n − 1` its `d·(n−1) + 1 − n` coefficients fit the
+`degree() − 1` pieces of `n − 1` coefficients (`get_quotient_poly_degree`, `hpieces_agree`) — the
+degree hypothesis `hdeg` of `honest_verifies_algebraic` in syntactic form (`C02.gate_poly_degree_covered`
+proves it for the gate polynomials themselves). `csDegree` mirrors `ConstraintSystem::degree()` with
+`lookup.rs`/`trash.rs`/`permutation.rs: required_degree` and is compared with the running code on
+every family member (C02 `csparams`); the family contains lookups for which a per-column formula is
+too small (`C02.per_column_degree_formula_insufficient`). -/
+theorem numerator_fits_quotient_pieces (cs : C02.Ids.VCS)
+    (htrash : ∀ t ∈ cs.trash, C02.Ids.exprDegree t.1 ≤ 1) (n : Nat) (hn : 1 ≤ n) :
+    ∀ d ∈ C02.Ids.identityDegrees cs, d * (n - 1) + 1 - n ≤ (C02.Ids.csDegree cs - 1) * (n - 1) := by
+  intro d hd
+  have hle : d ≤ C02.Ids.csDegree cs := by
+    simp only [C02.Ids.identityDegrees, List.mem_append, List.mem_map, List.mem_flatMap] at hd
+    rcases hd with ((⟨g, hg, rfl⟩ | hp) | ⟨l, hl, hdl⟩) | ⟨t, ht, rfl⟩
+    · exact C02.Ids.csDegree_ge_gate cs g hg
+    · have h3 := C02.Ids.csDegree_ge_3 cs
+      unfold C02.Ids.permIdDegrees at hp
+      split at hp
+      · cases hp
+      · simp only [List.mem_append, List.mem_cons, List.mem_nil_iff, or_false, List.mem_flatMap] at hp
+        rcases hp with (rfl | rfl) | ⟨set, hset, (rfl | rfl)⟩
+        · omega
+        · omega
+        · omega
+        · have := C02.Ids.chunksFuel_length_le (C02.Ids.csDegree cs - 2) _ _ set hset
+          omega
+    · exact Nat.le_trans (C02.Ids.lookupIdDegrees_le l d hdl) (C02.Ids.csDegree_ge_lookup cs l hl)
+    · exact Nat.le_trans (C02.Ids.trashIdDegree_le t (htrash t ht)) (C02.Ids.csDegree_ge_trash cs t ht)
+  have h3 := C02.Ids.csDegree_ge_3 cs
+  have h1 : d * (n - 1) ≤ C02.Ids.csDegree cs * (n - 1) := Nat.mul_le_mul_right _ hle
+  have h2 : C02.Ids.csDegree cs * (n - 1) = (C02.Ids.csDegree cs - 1) * (n - 1) + (n - 1) := by
+    have : C02.Ids.csDegree cs = (C02.Ids.csDegree cs - 1) + 1 := by omega
+    conv => lhs; rw [this, Nat.add_mul, Nat.one_mul]
+  omega
+
+/-- Non-vacuity: a constraint system with a mixed-degree two-column lookup (degree 6). -/
+example : (6 : Nat) ∈ C02.Ids.identityDegrees
+    { gates := [], lookups := [([.prod (.fixed 1 0) (.advice 0 0), .advice 3 0], [.fixed 2 0, .prod (.fixed 3 0) (.fixed 4 0)])],
+      trash := [], permCols := [], adviceQueries := [], fixedQueries := [], instanceQueries := [],
+      degree := 6, blinding := 5, k := 5 } := by decide
 
 end MidnightZK.C01
